@@ -271,6 +271,23 @@ impl TopicActor {
         // A subscription that is already being deleted may have asked us to remove it before
         // this request got here: attaching it now would leave a dead subscription in the list.
         if subscription.is_deleting() {
+            #[cfg(deltio_verif)]
+            crate::verif::emit("t.attach", |_| {
+                let mut attached = self
+                    .subscriptions
+                    .values()
+                    .map(|s| s.internal_id)
+                    .collect::<Vec<_>>();
+                attached.sort();
+                serde_json::json!({
+                    "ti": self.topic_internal_id,
+                    "name": verif_sub.0,
+                    "si": verif_sub.1,
+                    "attached": attached,
+                    "deleted": self.deleted,
+                    "skipped": true,
+                })
+            });
             return Ok(());
         }
 
